@@ -1,7 +1,7 @@
 (* ===== C12 : spline transforms reproduce the mathematical bases they name ===== *)
 From Coq Require Import List QArith Bool Arith.
 Import ListNotations.
-Require Import BSpline BSplineLaws CubicSpline CubicLaws CubicUnique.
+Require Import BSpline BSplineLaws CubicSpline CubicLaws CubicUnique KnotsOk.
 Open Scope Q_scope.
 
 (* ---- B-splines: for every recorded knot vector that is sorted and padded (knots_ok, checked on every case), every degree, every x ---- *)
@@ -102,6 +102,12 @@ Example C12_example : knots_ok (pad_knots 0 [1; 3] 7 3) 3 = true /\
   match natural_F [0; 1; 3; 7] with Some F => natural_F_ok [0; 1; 3; 7] (mfun F) | None => false end = true.
 Proof. vm_compute. split; reflexivity. Qed.
 
+(* the checkable predicate under which the B-spline theorems hold is met by EVERY padded knot vector built from inner knots that are
+   non-decreasing and lie within the bounds (explicit `knots=`, any degree): the theorems then hold without evaluating the predicate *)
+Theorem C12_padded_knots_are_ok : forall lb inner ub degree, lb <= ub -> nondec inner -> within lb ub inner ->
+  knots_ok (pad_knots lb inner ub degree) degree = true.
+Proof. exact pad_knots_ok. Qed.
+
 (* ... and the basis is THE cardinal basis: when the knots increase strictly the defining systems are strictly diagonally dominant, so their
    solution is unique -- any two matrices F, F' passing the checkable predicates agree entry by entry (natural and periodic) *)
 Theorem C12_natural_F_unique : forall kn F F', (2 <= length kn)%nat -> (forall i, (S i < length kn)%nat -> Kq kn i < Kq kn (S i)) ->
@@ -121,6 +127,7 @@ Example C12_unique_example :
 Proof. vm_compute. repeat split; reflexivity. Qed.
 
 Print Assumptions C12_unique_example.
+Print Assumptions C12_padded_knots_are_ok.
 Print Assumptions C12_natural_F_unique.
 Print Assumptions C12_cyclic_F_unique.
 Print Assumptions C12_bs_nonnegative.
